@@ -13,6 +13,7 @@ import (
 	"runtime"
 	"strconv"
 	"strings"
+	"sync"
 	"testing"
 	"time"
 
@@ -37,7 +38,8 @@ func TestCheck(t *testing.T) {
 		"(seq) 8-40 seeded Set/Get/Delete/Cleanup/Reset/advance operations in lock-step against a reference map key->(value, set instant+min(ttl,MaxTTL)s), every key probed before and after each manual Cleanup; "+
 		"(seqtick) the same with the periodic cleaner ticking at operation instants (quiesced after each advance); "+
 		"(conc) 2-8 goroutines issuing the operations at the same virtual instants on 1-4 hot keys plus untouched keys while the periodic cleaner ticks at those instants, judged offline from call/return stamps of one atomic counter. "+
-		"Non-trivial: (lock-step) at least one hit and one miss of a key that had been set; (conc) at least one pair of operations overlapping in logical time on one key, or an operation at a tick instant. Distinct = distinct operation list / schedule.")
+		"(stop) 2-4 goroutines call Stop at the same virtual instant - mostly a tick instant of the periodic cleaner with 100-20000 expired entries waiting, so that the cleaner is inside a long Cleanup pass - after seeded Gosched delays, while other goroutines yield in a storm and race Set/Get/Delete/Cleanup; every returning Stop call takes a goroutine dump at once and is judged on its own (cleaner still inside its loop or inside Cleanup = violation; cleaner in its deferred exit path = not judged), followed by one more Stop after all returned. "+
+		"Non-trivial: (lock-step) at least one hit and one miss of a key that had been set; (conc) at least one pair of operations overlapping in logical time on one key, or an operation at a tick instant; (stop) at least two Stop calls were issued at one instant. Distinct = distinct operation list / schedule.")
 	rec.Note("require", []string{
 		"seq.boundary.hit_1ns_before_expiry", "seq.boundary.miss_exactly_at_expiry", "seq.boundary.miss_after_expiry",
 		"seq.set.capped_by_maxttl", "seq.set.overwrite_shorter", "seq.set.overwrite_longer",
@@ -45,6 +47,8 @@ func TestCheck(t *testing.T) {
 		"seq.get.miss_after_delete", "seq.get.miss_after_reset", "seqtick.ticks_at_op_instants",
 		"conc.get.hit", "conc.get.miss_expired", "conc.untouched.live_hits", "conc.ops_at_tick_instants",
 		"conc.overlap.same_key_pairs", "stop.cleaner_gone",
+		"stop.concurrent_calls_checked", "stop.concurrent.calls_at_tick_instant", "stop.concurrent.called_while_cleaner_in_cleanup",
+		"stop.concurrent.cleaner_gone", "stop.second_stop_checked", "stopmode.racer_ops",
 	})
 	rec.Observe("whether Cleanup physically removed an expired entry (memory reclamation) is not observable through Get and is not judged")
 	rec.Observe("Set with ttl <= 0 panics by documentation and is never generated")
@@ -70,6 +74,12 @@ func TestCheck(t *testing.T) {
 	for i := 0; i < nconc; i++ {
 		plans = append(plans, pl{mode: "conc"})
 	}
+	// appended last, so that the case indices of the older modes do not move
+	nstop := mon.Pick(400, 16000)
+	for i := 0; i < nstop; i++ {
+		plans = append(plans, pl{mode: "stop"})
+	}
+	rec.Planned(len(plans))
 	// debugging aid only (never set by the driver): restrict the run to some modes
 	only := os.Getenv("VERIF_C15_MODES")
 	for idx, p := range plans {
@@ -84,6 +94,8 @@ func TestCheck(t *testing.T) {
 			runSeq(t, idx, genSeq(rng, p.mode))
 		case "conc":
 			runConc(t, idx, genConc(rng))
+		case "stop":
+			runStop(t, idx, genStop(rng))
 		}
 	}
 }
@@ -120,7 +132,7 @@ func cleanerState(dump string) (state string, frames string) {
 		}
 		frames = "[" + g.State + "] " + strings.Join(fr, " <- ")
 		for _, f := range g.Frames {
-			if (strings.Contains(f, "ttlcache.") && strings.HasSuffix(f, ".Cleanup")) || strings.Contains(f, "haxmap.") || f == "runtime.selectgo" {
+			if (strings.Contains(f, "ttlcache.") && strings.HasSuffix(f, ".Cleanup")) || strings.Contains(f, "haxmap.") || (strings.Contains(f, "ttlcache.") && strings.Contains(f, "entryMap")) || f == "runtime.selectgo" {
 				return "looping", frames
 			}
 		}
@@ -141,7 +153,10 @@ func cleanerState(dump string) (state string, frames string) {
 	return "gone", ""
 }
 
-var srcCache = map[string][]string{}
+var (
+	srcMu    sync.Mutex
+	srcCache = map[string][]string{}
+)
 
 // sourceLine returns the trimmed source text for a traceback position
 // "/path/file.go:152 +0x278" ("" if it cannot be read).
@@ -157,6 +172,8 @@ func sourceLine(pos string) string {
 	if err != nil {
 		return ""
 	}
+	srcMu.Lock()
+	defer srcMu.Unlock()
 	ls, ok := srcCache[pos[:i]]
 	if !ok {
 		b, _ := os.ReadFile(pos[:i])
@@ -171,8 +188,19 @@ func sourceLine(pos string) string {
 
 var dumpBuf = make([]byte, 1<<19)
 
-// stopCheck calls Stop (twice: its CAS makes it idempotent) and judges the
-// cleaner's state. Must be called inside the bubble.
+// stopAndDump calls Stop and, as the very next thing on the same goroutine,
+// snapshots all goroutines (stop-the-world) into buf and classifies the
+// cleaner. Whatever the snapshot shows was true at a moment after this Stop
+// call had returned, so "looping" is a sound witness against this call.
+func stopAndDump(c *ttlcache.Cache[string], buf []byte) (state, frames string) {
+	c.Stop()
+	n := runtime.Stack(buf, true)
+	return cleanerState(string(buf[:n]))
+}
+
+// stopCheck calls Stop and judges the cleaner's state, then calls Stop once
+// more (its CAS makes it idempotent) and judges that call as well. Must be
+// called inside the bubble.
 //
 // The dump has to be taken before a cleaner that Stop did not wait for gets a
 // chance to run: the check runs on one P (GOMAXPROCS(1) for its duration) and
@@ -184,31 +212,42 @@ func stopCheck(c *ttlcache.Cache[string], ctx string, fail func(sig, msg string)
 	defer runtime.GOMAXPROCS(prev)
 	type out struct{ state, frames string }
 	done := make(chan out, 1)
-	go func() {
-		c.Stop()
-		n := runtime.Stack(dumpBuf, true)
-		s, f := cleanerState(string(dumpBuf[:n]))
-		done <- out{s, f}
-	}()
-	select {
-	case o := <-done:
-		rec.Count("stop.returned", 1)
-		switch o.state {
-		case "gone":
-			rec.Count("stop.cleaner_gone", 1)
-		case "exiting":
-			rec.Count("stop.cleaner_in_exit_path_not_judged", 1)
-		case "looping":
-			fail("stop/returned-while-cleaner-still-in-loop/"+ctx, "Stop returned but the background cleaner goroutine has not left its loop: "+o.frames)
+	for call := 1; call <= 2; call++ {
+		go func() {
+			s, f := stopAndDump(c, dumpBuf)
+			done <- out{s, f}
+		}()
+		select {
+		case o := <-done:
+			pre := "stop."
+			if call == 2 {
+				pre = "stop.second_stop."
+				rec.Count("stop.second_stop_checked", 1)
+			}
+			rec.Count(pre+"returned", 1)
+			switch o.state {
+			case "gone":
+				rec.Count(pre+"cleaner_gone", 1)
+			case "exiting":
+				rec.Count(pre+"cleaner_in_exit_path_not_judged", 1)
+			case "looping":
+				if call == 1 {
+					fail("stop/returned-while-cleaner-still-in-loop/"+ctx, "Stop returned but the background cleaner goroutine has not left its loop: "+o.frames)
+				} else {
+					fail("stop/returned-while-cleaner-running/second-stop/"+ctx, "the second Stop (issued after the first had returned) returned while the background cleaner goroutine is still in its loop: "+o.frames)
+				}
+				return
+			}
+		case <-time.After(48 * time.Hour):
+			which := "stop/did-not-return/"
+			if call == 2 {
+				which = "stop/second-stop-did-not-return/"
+			}
+			fail(which+ctx, "Stop did not return within 48h of virtual time")
+			rec.Flush()
 			return
 		}
-	case <-time.After(48 * time.Hour):
-		fail("stop/did-not-return/"+ctx, "Stop did not return within 48h of virtual time")
-		rec.Flush()
-		return
 	}
-	// a second Stop returns as well
-	c.Stop()
 }
 
 func finishBubble(idx int, res mon.BubbleResult, mode string, viol func(sig, msg string)) {
